@@ -107,11 +107,14 @@ ASSUMPTIONS = [
 
 
 def replay(chk, data):
-    res = chk.run_cases('scen_proc', [data['case']], sched=False, per_case_timeout=150.0)
-    case, r = res[0]
-    hits = [m for m in r['monitors'] if m['prop'] == chk.prop]
-    print(json.dumps(dict(monitors=r['monitors'], answers=r.get('answers'), early=r.get('early_answers')), default=str)[:2000])
-    if hits:
-        print(f'VIOLATION property={chk.prop} replay=(replayed)')
-        return 1
+    """the OS schedule is not controlled: a timing-dependent failure may need several attempts"""
+    for attempt in range(1, 6):
+        res = chk.run_cases('scen_proc', [data['case']], sched=False, per_case_timeout=3600.0)
+        case, r = res[0]
+        hits = [m for m in r['monitors'] if m['prop'] == chk.prop]
+        print(json.dumps(dict(attempt=attempt, monitors=r['monitors'], answers=r.get('answers'), early=r.get('early_answers')),
+                         default=str)[:2000])
+        if hits:
+            print(f'VIOLATION property={chk.prop} replay=(replayed)')
+            return 1
     return 0
